@@ -308,6 +308,8 @@ CLASSES = {"list": list, "dict": dict, "set": set, "bytearray": bytearray, "dequ
 
 
 def imm(v):
+    if not brine.dumpable(v):
+        raise ValueError("not an immutable value: %r" % (v,))
     return {"imm": C.sx_dumps(V.to_sx(v))}
 
 
@@ -490,16 +492,15 @@ def canon_result(side, v, depth=0):
 
 
 def canon_local(side, v, depth=0):
-    """results that are built on the caller's side (list(x), sorted(x), ...): local containers of values/references"""
+    """results that are built on the caller's side (list(x), sorted(x), dict(x) ...): the outer container is the caller's own,
+    what it holds are results like any other (values, or references to objects on the target's side)"""
     t = type(v)
-    if depth >= 6 and t in (list, tuple, set, frozenset, dict):
-        return ("deep", t.__name__, len(v))
     if t in (list, tuple):
-        return (t.__name__,) + tuple(canon_local(side, x, depth + 1) for x in v)
+        return (t.__name__,) + tuple(canon_result(side, x) for x in v)
     if t in (set, frozenset):
-        return (t.__name__,) + tuple(sorted((canon_local(side, x, depth + 1) for x in v), key=repr))
+        return (t.__name__,) + tuple(sorted((canon_result(side, x) for x in v), key=repr))
     if t is dict:
-        return ("dict",) + tuple((canon_local(side, a, depth + 1), canon_local(side, b, depth + 1)) for a, b in v.items())
+        return ("dict",) + tuple((canon_result(side, a), canon_result(side, b)) for a, b in v.items())
     return canon_result(side, v)
 
 
@@ -537,13 +538,13 @@ def needs(op, twin_obj):
     k = op[0]
     T = type(twin_obj)
     if k == "getattr":
-        return [] if op[2] in netref.LOCAL_ATTRS and op[2] != "__doc__" else [("get", op[2])]
+        return None if op[2] in netref.LOCAL_ATTRS else [("get", op[2])]      # local names fall back to a remote read when the proxy lacks them
     if k == "setattr":
         return [("set", op[2])]
     if k == "delattr":
         return [("del", op[2])]
     if k == "callm":
-        return [("get", op[2])]
+        return None if op[2] in netref.LOCAL_ATTRS else [("get", op[2])]
     if k in ("call", "hash", "repr", "str", "dir", "isinstance", "classof", "fetch"):
         return []
     if k == "cmp":
@@ -651,6 +652,7 @@ class Tap(object):
         self.buf = {"A": bytearray(), "B": bytearray()}
         self.reqs = []          # requests the proxy side sent: (handler name, unboxed canonical args)
         self.back = []          # requests the target's side sent to the proxy side
+        self.refusals = 0       # replies that are AttributeError("cannot access ...")
 
     def __call__(self, name, data):
         b = self.buf[name]
@@ -664,6 +666,10 @@ class Tap(object):
             m, _pos = R.dec(payload)
             if m[0] == R.MSG_REQUEST:
                 (self.reqs if name == "A" else self.back).append((HNAME.get(m[2][0], m[2][0]), m[2][1]))
+            elif m[0] == R.MSG_EXCEPTION and name == "B" and type(m[2]) is tuple and len(m[2]) == 4:
+                (mod, cls), args = m[2][0], m[2][1]
+                if cls == "AttributeError" and args and type(args[0]) is str and args[0].startswith("cannot access "):
+                    self.refusals += 1
 
 
 def unbox_canon(pkg, idmap):
@@ -784,6 +790,7 @@ def run_case(ctx, case, collect=None):
             pred = None if nd is None else permitted(cfg, nd)
             del w.tap.reqs[:]
             del w.tap.back[:]
+            w.tap.refusals = 0
             idmap = w.idmap()
             methods = proxy_methods(w.P.slots[op[1]])
             rp, vp, how, ep = outcome(w.P, op, True)
@@ -793,10 +800,10 @@ def run_case(ctx, case, collect=None):
                                 "twin_type": type(twin_obj), "result": rp, "pred": pred, "back": len(w.tap.back)})
             ctx.count("op:" + op[0])
             where = "step %d %s on %s under %s" % (step, op[0], type(twin_obj).__name__, cfg)
-            refused = ep is not None and is_refusal(ep) and cfg != "classic"
+            refused = cfg != "classic" and (w.tap.refusals > 0 if pred is None else (ep is not None and is_refusal(ep)))
             if pred is False or (pred is None and refused):
                 ctx.count("not-permitted:" + cfg)
-                if not (ep is not None and isinstance(ep, AttributeError)):
+                if pred is False and not (ep is not None and isinstance(ep, AttributeError)):
                     report("refusal-expected:%s:%s" % (op[0], cfg), step, short(rp), "AttributeError (name not permitted under %s)" % cfg,
                            where + ": needs a name the configuration does not permit, but was not refused")
                     return sigs
@@ -994,6 +1001,11 @@ def pick_key(r, o):
     return gen_imm(r, 1, True)
 
 
+def member(r, o, v):
+    vals = [x for x in o if brine.dumpable(x)]
+    return r.choice(vals) if vals and r.random() < 0.7 else v()
+
+
 def slots_of_type(side, T):
     return [i for i, s in enumerate(side.slots) if isinstance(s, T)]
 
@@ -1030,13 +1042,13 @@ def gen_op(r, side, i):
         n = len(o)
         return r.choice([
             lambda: M("append", v()), lambda: M("append", {"slot": r.randrange(len(side.slots))}), lambda: M("extend", tuple(v() for _ in range(r.choice([0, 1, 3])))),
-            lambda: M("insert", idx_for(r, n), v()), lambda: M("pop"), lambda: M("pop", idx_for(r, n)), lambda: M("remove", r.choice(o) if o and brine.dumpable(r.choice(o)) else v()),
+            lambda: M("insert", idx_for(r, n), v()), lambda: M("pop"), lambda: M("pop", idx_for(r, n)), lambda: M("remove", member(r, o, v)),
             lambda: M("index", v()), lambda: M("count", v()), lambda: M("sort"), lambda: M("sort", reverse=True), lambda: M("reverse"), lambda: M("clear"), lambda: M("copy"),
             lambda: M("__len__"), lambda: M("extend", 5), lambda: M("append"),
             lambda: ["getitem", i, I(idx_for(r, n))], lambda: ["getitem", i, I(idx_for(r, n))], lambda: ["getitem", i, I(slice_for(r, n))],
             lambda: ["setitem", i, I(idx_for(r, n)), I(v())], lambda: ["setitem", i, I(slice_for(r, n)), I(tuple(v() for _ in range(r.choice([0, 1, 2]))))],
             lambda: ["setitem", i, I(idx_for(r, n)), {"slot": r.randrange(len(side.slots))}],
-            lambda: ["delitem", i, I(idx_for(r, n))], lambda: ["delitem", i, I(slice_for(r, n))], lambda: ["contains", i, I(r.choice(o) if o and brine.dumpable(r.choice(o)) else v())],
+            lambda: ["delitem", i, I(idx_for(r, n))], lambda: ["delitem", i, I(slice_for(r, n))], lambda: ["contains", i, I(member(r, o, v))],
             lambda: ["binop", i, "mul", I(r.choice([0, 1, 2, -1, "a"]))], lambda: ["rbinop", i, "mul", I(2)], lambda: ["ibinop", i, "imul", I(r.choice([0, 1, 2]))],
             lambda: ["ibinop", i, "iadd", I(tuple(v() for _ in range(2)))], lambda: ["binop", i, "add", I((1, 2))],
             lambda: ["binop", i, "add", {"slot": r.choice(slots_of_type(side, list))}], lambda: ["cmp", i, r.choice(list(CMPS)), {"slot": r.choice(slots_of_type(side, list))}],
